@@ -58,6 +58,15 @@ class StateLint():
         self.validator = Validator(schema_path)
 
     def validate(self, json):
+        # The validator only descends into non-empty JSON objects.
+        if not isinstance(json, dict):
+            return ["State Machine is not a JSON object"]
+        if not json:
+            return [
+                'State Machine does not have required field "States"',
+                'State Machine does not have required field "StartAt"',
+            ]
+
         problems = self.validator.validate(json)
         checker = StateNode()
         checker.check(json, self.validator.root, problems)
